@@ -811,6 +811,180 @@ def calc_unit():
 
 
 # ----------------------------------------------------------------------------------------------------------
+# geostructures/structures.py :: the vertex generators and analytic bounds of GeoCircle, GeoEllipse, GeoRing   (C03, C09)
+#
+# generic over `Num α` like SrcCurved / SrcCalc.  Translated from the text: the sample count (`kwargs.get('k') or default`,
+# the defaults `36`, `math.ceil(36 * a / b)`, `max(math.ceil((amax - amin) / 10), 10)`), the schedule `range(k, -1, -1)`,
+# the angle formulas operation by operation, the loops with their `append`s (structural recursions over the schedule),
+# `_radius_at_angle`, the wedge / full-ring assembly (`[*outer, *inner[::-1], outer[0]]`: `outer[0]` may raise IndexError,
+# the equality theorem shows it does not), the corner / axis destinations of `bounds`.  Declared, not translated:
+# `inverse_haversine_radians` / `_degrees` are the parameters `dest` / `destDeg` (SrcCalc's subject: Props/C03SrcGen
+# instantiates them with the model's `destination rnd R` — equal to the translated calculator by C07Src — and with the
+# un-rounded `destRaw R` the C03 theorems are about); the `**kwargs` binder is the number `k` (0 = absent, both falsy).
+
+def curvedgen_unit():
+    src = py2lean.Source(_repo('structures.py'))
+    kw = ('kwargs', 'KwK')
+    insts = [
+        Inst('GeoCircle.centroid', 'circleCentroid', [('self', 'Circle')], 'C'),
+        Inst('GeoEllipse.centroid', 'ellipseCentroid', [('self', 'Ellipse')], 'C'),
+        Inst('GeoEllipse._radius_at_angle', 'radiusAtAngle', [('self', 'Ellipse'), ('angle', 'N')], 'N'),
+        Inst('GeoCircle.bounding_coords', 'circleRing', [('self', 'Circle')], 'List C', kw=kw),
+        Inst('GeoEllipse.bounding_coords', 'ellipseRing', [('self', 'Ellipse')], 'List C', kw=kw),
+        Inst('GeoRing._draw_bounds', 'ringArcs', [('self', 'Ring')], 'Pair List C', kw=kw),
+        Inst('GeoRing.bounding_coords', 'wedgeRing', [('self', 'Ring')], 'Except List C', kw=kw),
+        Inst('GeoCircle.bounds', 'circleBounds', [('self', 'Circle')], 'Tuple4 N'),
+        Inst('GeoEllipse.bounds', 'ellipseBounds', [('self', 'Ellipse')], 'Tuple4 N'),
+        Inst('GeoEllipse.circumscribing_circle', 'ellipseCircle', [('self', 'Ellipse')], 'Prod C N'),
+        Inst('GeoRing.bounds', 'ringBounds', [('self', 'Ring')], 'Except Tuple4 N'),
+    ]
+    for t in ('Circle', 'Ellipse', 'Ring'):
+        py2lean.LEAN_TYPE.setdefault(t, 'Unit')
+    py2lean.LEAN_TYPE.setdefault('N', 'α')
+    py2lean.LEAN_TYPE.setdefault('C', 'GV.Sphere.Coord α')
+    py2lean.LEAN_TYPE.setdefault('KwK', 'Nat')
+
+    def num(a):
+        if a.typ == 'N':
+            return a.text
+        if a.typ == 'Int':
+            return f'(Num.ofI {a.text})'
+        if a.typ == 'Nat':
+            return f'(Num.ofN {a.text})'
+        raise Unsupported(f'a number of type {a.typ}')
+
+    def fn1(name):
+        def f(tr, args):
+            if len(args) != 1:
+                raise Unsupported(f'math function applied to {len(args)} arguments')
+            return Val(f'({name} {num(args[0])})', 'N')
+        return f
+
+    def ceil(tr, args):
+        if [a.typ for a in args] != ['N']:
+            raise Unsupported('math.ceil of ' + ', '.join(a.typ for a in args))
+        return Val(f'(Num.ceilI {args[0].text})', 'Int')
+
+    def dest(name):
+        def f(tr, args):
+            if len(args) != 3 or args[0].typ != 'C':
+                raise Unsupported(f'{name}(' + ', '.join(a.typ for a in args) + ')')
+            return Val(f'({name} {args[0].text} {num(args[1])} {num(args[2])})', 'C')
+        return f
+
+    def geocircle(tr, args):
+        # `GeoCircle(center, radius, dt=self.dt)`: the circle is its (centre, radius) pair
+        if [x.typ for x in args] != ['C', 'N']:
+            raise Unsupported('GeoCircle(' + ', '.join(x.typ for x in args) + ')')
+        return Val(f'({args[0].text}, {args[1].text})', 'Prod C N')
+
+    def keywords(tr, e):
+        f = e.func
+        return isinstance(f, py2lean.ast.Name) and f.id == 'GeoCircle' and [k.arg for k in e.keywords] == ['dt'] \
+            and py2lean.ast.unparse(e.keywords[0].value) == 'self.dt'
+
+    def method(tr, recv, attr, args):
+        # `kwargs.get('k')`: the requested sample count (0 when absent)
+        if recv.typ == 'KwK' and attr == 'get' and len(args) == 1 and isinstance(args[0], py2lean.ast.Constant) and args[0].value == 'k':
+            return Val(recv.text, 'Nat')
+        # `y.to_float()`: a tuple that starts with (longitude, latitude) (pinned)
+        if recv.typ == 'C' and attr == 'to_float' and not args:
+            return Val(recv.text, 'CoordTupleN')
+        return None
+
+    def subscript(tr, v, sl):
+        A = py2lean.ast
+        if v.typ != 'CoordTupleN':
+            return None
+        if isinstance(sl, A.Slice) and sl.lower is None and sl.step is None and isinstance(sl.upper, A.Constant) and sl.upper.value == 2 \
+                and not isinstance(sl.upper.value, bool):
+            return Val(v.text, 'Pair N')
+        raise Unsupported(f'subscript `[{A.unparse(sl)}]` of `to_float()`')
+
+    attr = {('C', 'longitude'): ('{}.1', 'N'), ('C', 'latitude'): ('{}.2', 'N')}
+    for cls in ('Circle', 'Ellipse', 'Ring'):
+        attr[(cls, 'center')] = ('center', 'C')
+    attr.update({('Circle', 'radius'): ('radius', 'N'), ('Ellipse', 'rotation'): ('rotDeg', 'N'),
+                 ('Ellipse', 'semi_major'): ('a', 'N'), ('Ellipse', 'semi_minor'): ('b', 'N'),
+                 ('Ring', 'inner_radius'): ('inner', 'N'), ('Ring', 'outer_radius'): ('outer', 'N'),
+                 ('Ring', 'angle_min'): ('amin', 'N'), ('Ring', 'angle_max'): ('amax', 'N')})
+    py2lean.LEAN_TYPE.setdefault('CoordTupleN', 'GV.Sphere.Coord α')
+    return Unit('SrcCurvedGen', src, 'GV.Src.CurvedGen', ['GeoVerif.Model.Sphere', 'GeoVerif.Model.PyPrelude', 'GeoVerif.Model.PyBounds'], insts,
+                {'Circle': 'GeoCircle', 'Ellipse': 'GeoEllipse', 'Ring': 'GeoRing'},
+                header='open GV Num\nvariable {α : Type} [Num α]', attr_types=attr,
+                intrinsics={'math.sin': fn1('Num.sin'), 'math.cos': fn1('Num.cos'), 'math.sqrt': fn1('Num.sqrt'),
+                            'math.radians': fn1('GV.Sphere.radians'), 'math.ceil': ceil,
+                            'inverse_haversine_radians': dest('dest'), 'inverse_haversine_degrees': dest('destDeg'),
+                            'GeoCircle': geocircle},
+                pins={'coordinates.py::Coordinate.to_float': PINS['coordinates.py::Coordinate.to_float']},
+                hooks={'isinstance': lambda typ: None, 'curved_gen': True, 'float_as_int': True, 'method': method, 'subscript': subscript, 'keywords': keywords,
+                       'prune_loop_params': True, 'local_type': lambda qual, name: 'List C',
+                       'decorators': {'GeoCircle.centroid': ['property'], 'GeoEllipse.centroid': ['property']},
+                       'constants': {'math.pi': ('Num.pi', 'N')}},
+                ctx_params=[('dest', 'GV.Sphere.Coord α → α → α → GV.Sphere.Coord α'),
+                            ('destDeg', 'GV.Sphere.Coord α → α → α → GV.Sphere.Coord α'),
+                            ('center', 'GV.Sphere.Coord α'), ('radius', 'α'), ('a', 'α'), ('b', 'α'),
+                            ('rotDeg', 'α'), ('inner', 'α'), ('outer', 'α'), ('amin', 'α'), ('amax', 'α')])
+
+
+# ----------------------------------------------------------------------------------------------------------
+# geostructures/coordinates.py :: Coordinate.xyz, Coordinate._from_xyz; _geometry.py :: dist_xyz_meters   (C07)
+#
+# generic over `Num α`; a Python list of floats is a Lean list (`xyz` returns a 3-element list display, `_from_xyz` reads
+# `xyz[0..2]` behind `assert len(xyz) == 3`: AssertionError / IndexError are `Except` errors, the equality shows a
+# 3-element list raises neither); `sum([...])` is Python 3.12's compensated float sum for a list of any length
+# (`Model/SphereSum.lean`, pinned reading of the runtime), the comprehension over `zip` a map over the list of pairs;
+# `Coordinate(lon, lat)` is the pair handed to the constructor (C08's subject: `normCoord 4` on top, as in SrcCalc);
+# `EARTH_RADIUS` is the parameter `R`; `max(-1.0, min(1.0, dot))` returns the first extremal argument.
+
+def xyz_unit():
+    src = py2lean.Sources([_repo('coordinates.py'), _repo('_geometry.py')])
+    insts = [
+        Inst('Coordinate.xyz', 'xyz', [('self', 'C')], 'List N'),
+        Inst('Coordinate._from_xyz', 'fromXyz', [('cls', 'None'), ('xyz', 'List N')], 'Except C'),
+        Inst('dist_xyz_meters', 'distXyz', [('coord1', 'C'), ('coord2', 'C')], 'N'),
+    ]
+    py2lean.LEAN_TYPE.setdefault('N', 'α')
+    py2lean.LEAN_TYPE.setdefault('C', 'GV.Sphere.Coord α')
+
+    def num(a):
+        if a.typ == 'N':
+            return a.text
+        if a.typ == 'Int':
+            return f'(Num.ofI {a.text})'
+        raise Unsupported(f'a number of type {a.typ}')
+
+    def fn(name, n=1):
+        def f(tr, args):
+            if len(args) != n:
+                raise Unsupported(f'{name} applied to {len(args)} arguments')
+            return Val('(' + ' '.join([name] + [num(x) for x in args]) + ')', 'N')
+        return f
+
+    def pysum(tr, args):
+        if [x.typ for x in args] != ['List N']:
+            raise Unsupported('sum(' + ', '.join(x.typ for x in args) + ')')
+        return Val(f'(GV.Sphere.pySumList {args[0].text})', 'N')
+
+    def coordinate(tr, args):
+        if [x.typ for x in args] != ['N', 'N']:
+            raise Unsupported('Coordinate(' + ', '.join(x.typ for x in args) + ')')
+        return Val(f'({args[0].text}, {args[1].text})', 'C')
+
+    return Unit('SrcXyz', src, 'GV.Src.Xyz', ['GeoVerif.Model.Sphere', 'GeoVerif.Model.SphereSum', 'GeoVerif.Model.PyPrelude'], insts,
+                {'C': 'Coordinate'}, header='open GV Num\nvariable {α : Type} [Num α]',
+                attr_types={('C', 'longitude'): ('{}.1', 'N'), ('C', 'latitude'): ('{}.2', 'N')},
+                intrinsics={'math.sin': fn('Num.sin'), 'math.cos': fn('Num.cos'), 'math.asin': fn('Num.asin'),
+                            'math.acos': fn('Num.acos'), 'math.atan2': fn('Num.atan2', 2),
+                            'math.radians': fn('GV.Sphere.radians'), 'math.degrees': fn('GV.Sphere.degrees'),
+                            'sum': pysum, 'Coordinate': coordinate},
+                hooks={'isinstance': lambda typ: None, 'curved_gen': True, 'float_as_int': True,
+                       'decorators': {'Coordinate.xyz': ['cached_property'], 'Coordinate._from_xyz': ['classmethod']},
+                       'constants': {'EARTH_RADIUS': ('R', 'N')}},
+                ctx_params=[('R', 'α')])
+
+
+# ----------------------------------------------------------------------------------------------------------
 # geostructures/coordinates.py :: Coordinate.to_dms / from_dms / to_qdms / from_qdms and their local helpers   (C19)
 #
 # a `str` is the list of its characters (`Chars`), a float an exact rational (§3), the receiver the model's `Coord`
@@ -1864,6 +2038,8 @@ UNITS['SrcGeohash'] = geohash_unit
 UNITS['SrcEq'] = eq_unit
 UNITS['SrcSweep'] = sweep_unit
 UNITS['SrcWkt'] = wkt_unit
+UNITS['SrcCurvedGen'] = curvedgen_unit
+UNITS['SrcXyz'] = xyz_unit
 
 
 def geojson_unit():
